@@ -232,6 +232,9 @@ func universal(sc *Scn, x *vrt.Sched, w *World) []Finding {
 		if open := vnet.OpenServerEndpoints(); len(open) > 0 {
 			sort.Strings(open)
 			add("C08", "a server-side socket is still open at the end", fmt.Sprintf("%v; log: %v", open, x.Log))
+			if hasProp(sc, "C07") {
+				add("C07", "the socket of a connection that had a fault is never closed (one descriptor leaked per fault: accept eventually fails)", fmt.Sprintf("%v; log: %v", open, x.Log))
+			}
 		}
 		if !sp.Srv.NoOnClose {
 			if vnet.Accepted() >= 0 && len(w.OnClose) != vnet.Accepted() {
@@ -330,6 +333,14 @@ func universal(sc *Scn, x *vrt.Sched, w *World) []Finding {
 		}
 	}
 
+	// a request keeps reporting the connection it arrived on, also after that connection has gone and others came
+	for _, k := range w.Kept {
+		if now := k.R.ConnectionID(); now != k.Conn {
+			add("C09", "a request reports another ConnectionID than it did while it was handled", fmt.Sprintf("reported %d in its handler, %d at the end of the scenario", k.Conn, now))
+			break
+		}
+	}
+
 	// ---- C06: Request.ID is the arrival number
 	for _, d := range w.Dispatch {
 		k := reqOfMsg(d.MsgID)
@@ -394,8 +405,11 @@ func universal(sc *Scn, x *vrt.Sched, w *World) []Finding {
 		}
 		ran := 0
 		for _, d := range w.Dispatch {
-			if clientOfMsg(d.MsgID) == ci && d.Route == "unbind" {
+			if clientOfMsg(d.MsgID) == ci && (d.Route == "unbind" || d.Route == "unbind-replaced") {
 				ran++
+				if (d.Route == "unbind") == (w.Notes["unbind-route-replaced"] > 0) && sp.ReplacedUnbind {
+					add("C10", "the unbind handler that runs is not the one registered when the Unbind was read", fmt.Sprintf("client %d: %s", ci+1, d.Route))
+				}
 			}
 		}
 		want := 1
